@@ -55,13 +55,13 @@ func (l vC09Letter) String() string {
 	return fmt.Sprintf("%s#%d", l.method, l.id)
 }
 
-var vC09Methods = []string{"connect", "connect+ping", "connect-refused", "connect-suberr", "subscribe", "unsubscribe", "publish", "presence",
-	"presence_stats", "history", "rpc", "send", "refresh", "sub_refresh", "ping", "none"}
+var vC09Methods = []string{"connect", "connect+ping", "connect+pingpong", "connect-refused", "connect-suberr", "subscribe", "unsubscribe", "publish", "presence",
+	"presence_stats", "history", "rpc", "send", "refresh", "sub_refresh", "ping", "none", "wait"}
 
 func (l vC09Letter) command() *protocol.Command {
 	c := &protocol.Command{Id: l.id}
 	switch l.method {
-	case "connect", "connect+ping":
+	case "connect", "connect+ping", "connect+pingpong":
 		c.Connect = &protocol.ConnectRequest{}
 	case "connect-refused":
 		c.Connect = &protocol.ConnectRequest{Token: "refuse"}
@@ -100,6 +100,7 @@ func (l vC09Letter) command() *protocol.Command {
 
 func (l vC09Letter) isConnect() bool { return strings.HasPrefix(l.method, "connect") && l.raw == nil }
 func (l vC09Letter) isEmpty() bool   { return l.method == "none" && l.id == 0 && l.raw == nil }
+func (l vC09Letter) isWait() bool    { return l.method == "wait" }
 
 func vC09Encode(proto ProtocolType, c *protocol.Command) []byte {
 	var b []byte
@@ -118,8 +119,14 @@ func vC09Encode(proto ProtocolType, c *protocol.Command) []byte {
 func vC09Alphabet(proto ProtocolType, entry string, nIDs uint32) []vC09Letter {
 	var l []vC09Letter
 	for _, m := range vC09Methods {
-		if m == "connect+ping" && entry == "batch" {
+		if (m == "connect+ping" || m == "connect+pingpong" || m == "wait") && entry == "batch" {
 			continue // needs virtual time to pass between two commands
+		}
+		if m == "wait" {
+			// not a command: virtual time passes (pong timeout + 100 ms, so that the server's pong check
+			// of an answered ping runs while the next ping is not yet due)
+			l = append(l, vC09Letter{method: m, id: 0})
+			continue
 		}
 		for id := uint32(0); id < nIDs; id++ {
 			l = append(l, vC09Letter{method: m, id: id})
@@ -334,6 +341,7 @@ func (e *vC09Env) runSeq(proto ProtocolType, entry string, seq []vC09Letter) (op
 	}()
 
 	// reference state machine
+	seqStartsWithPing := len(seq) > 0 && (seq[0].method == "connect+ping" || seq[0].method == "connect+pingpong")
 	state := "fresh"    // fresh | refused | connected | unknown
 	pingOut := "no"     // no | yes | unknown: is there an unanswered server ping
 	fed := map[uint32]int{}
@@ -343,7 +351,7 @@ func (e *vC09Env) runSeq(proto ProtocolType, entry string, seq []vC09Letter) (op
 	check := func(i int, l vC09Letter, frames0, handlers0 int, batchEnd bool) {
 		closed := t.closed
 		// gate
-		if (state == "fresh" || state == "refused") && !l.isConnect() {
+		if (state == "fresh" || state == "refused") && !l.isConnect() && l.method != "wait" {
 			switch {
 			case !closed:
 				fail("c09-gate-not-closed", "command %d (%s) before a successful connect left the connection open", i, l)
@@ -378,8 +386,23 @@ func (e *vC09Env) runSeq(proto ProtocolType, entry string, seq []vC09Letter) (op
 		}
 	}
 
+	waits := 0
 	advance := func(l vC09Letter) {
 		// reference transition (independent of the implementation's answers)
+		if l.isWait() {
+			waits++
+			switch {
+			case state != "connected":
+				state = "unknown" // the stale timer may fire: no claim
+			case pingOut == "yes":
+				state = "unknown" // unanswered ping: the server closes with no-pong
+			case pingOut == "no" && waits == 1 && seqStartsWithPing:
+				// the answered ping's pong check has run, the next ping is not due yet: still no ping out
+			default:
+				pingOut = "unknown"
+			}
+			return
+		}
 		switch state {
 		case "fresh":
 			switch {
@@ -388,6 +411,7 @@ func (e *vC09Env) runSeq(proto ProtocolType, entry string, seq []vC09Letter) (op
 				if l.method == "connect+ping" {
 					pingOut = "yes"
 				}
+				// connect+pingpong: the first ping was answered right away, none is outstanding
 			case l.isConnect() && l.id != 0:
 				state = "refused"
 			default:
@@ -479,7 +503,10 @@ func (e *vC09Env) runSeq(proto ProtocolType, entry string, seq []vC09Letter) (op
 	for i, l := range seq {
 		frames0, handlers0 := len(t.frames), len(e.handlers)
 		var proceed bool
-		if l.raw != nil {
+		if l.isWait() {
+			vsched.Advance(int64(8100 * time.Millisecond))
+			proceed = true
+		} else if l.raw != nil {
 			proceed = feed(l.raw, nil)
 		} else {
 			c := l.command()
@@ -497,6 +524,23 @@ func (e *vC09Env) runSeq(proto ProtocolType, entry string, seq []vC09Letter) (op
 					}
 				}
 				if pinged {
+					break
+				}
+			}
+		}
+		if l.method == "connect+pingpong" && proceed && !t.closed {
+			// ... and the client answers it with a pong at once
+			for k := 0; k < 12; k++ {
+				vsched.Advance(vSec)
+				pinged := false
+				for _, f := range t.frames[frames0:] {
+					if vIsPingFrame(f) {
+						pinged = true
+					}
+				}
+				if pinged {
+					_ = feed(vC09Encode(proto, &protocol.Command{}), &protocol.Command{})
+					vsched.WaitIdle()
 					break
 				}
 			}
@@ -589,7 +633,7 @@ var vC09AsyncMethods = []string{"rpc", "subscribe", "publish", "history", "prese
 func init() {
 	vsched.Register(&vsched.Harness{
 		Name: "cmdseq", Props: []string{"C09"}, Kind: "sched",
-		Doc: "all command sequences of length <= 3 (quick) / 4 (thorough) over 16 methods (incl. a connect the application refuses and a connect that fails in a connect-time server-side subscription) x ids {0,1,2} (+ truncated / garbage / empty frames) through HandleCommand (cmdi: the reader verdict ignored, commands keep coming until the connection is closed, as the emulation / SSE / HTTP-stream handlers do), HandleReadFrame (one command per frame, whole sequence in one frame) in real JSON and Protobuf encodings, handlers answering ok / *Error / *Disconnect; async-*: two commands whose handler callbacks complete on separate threads, all interleavings within the deviation bound; oracle: authentication gate (bad-request close, zero handler invocations), exactly one reply per id unless closed, pong without ping closes",
+		Doc: "all command sequences of length <= 3 (quick) / 4 (thorough) over 17 methods (incl. a connect whose first server ping is answered, a connect the application refuses and a connect that fails in a connect-time server-side subscription) x ids {0,1,2} (+ truncated / garbage / empty frames, + a wait of pong-timeout + 100 ms of virtual time) through HandleCommand (cmdi: the reader verdict ignored, commands keep coming until the connection is closed, as the emulation / SSE / HTTP-stream handlers do), HandleReadFrame (one command per frame, whole sequence in one frame) in real JSON and Protobuf encodings, handlers answering ok / *Error / *Disconnect; async-*: two commands whose handler callbacks complete on separate threads, all interleavings within the deviation bound; oracle: authentication gate (bad-request close, zero handler invocations), exactly one reply per id unless closed, pong without ping closes",
 		Variants: vC09Variants,
 		Sched: func(v vsched.Variant) func() {
 			if strings.HasPrefix(v.Name, "async-") {
